@@ -59,11 +59,23 @@ def run_pair(ctx, exe, drv, mode, env_extra, verbose=False):
     hp = subprocess.Popen([exe], env=env, stdout=subprocess.PIPE, stderr=subprocess.STDOUT, cwd=ctx.scratch)
     try:
         hout, _ = hp.communicate(timeout=3000)
-        dout, _ = dp.communicate(timeout=3000)
     except subprocess.TimeoutExpired:
         hp.kill()
         dp.kill()
         return 124, "[timeout]", 124, "[timeout]", fifo + ".summary"
+    # the harness is gone: the driver finishes with the stream. A harness that died before it opened the
+    # fifo leaves the driver blocked in open(): give it a reader's end-of-file, then a short grace period
+    try:
+        fd = os.open(fifo, os.O_WRONLY | os.O_NONBLOCK)
+        os.close(fd)
+    except OSError:
+        pass
+    try:
+        dout, _ = dp.communicate(timeout=120 if hp.returncode != 0 else 900)
+    except subprocess.TimeoutExpired:
+        dp.kill()
+        dout, _ = dp.communicate()
+        dout = (dout or b"") + b"\n[driver killed: it did not finish after the harness had exited]"
     return hp.returncode, hout.decode("utf-8", "replace"), dp.returncode, dout.decode("utf-8", "replace"), fifo + ".summary"
 
 
@@ -83,6 +95,7 @@ def vm_cross_check(ctx, mode):
 def run_mode(ctx, mode):
     pid = ctx.pid
     ctx.level = "proof"
+    ctx.min_evaluations = 5000      # the quick tier explores > 40,000 histories; far fewer means the run shows nothing
     status = vlib.proof_status(pid, extra_targets=["C01/Extract.v", "C01/Observe.v"])
     ctx.proof_gate(status)
     drv = vlib.build_ocaml_driver("c01_driver", os.path.join(vlib.COQ, "extracted"),
@@ -113,6 +126,20 @@ def run_mode(ctx, mode):
     m = re.search(r"CASES (\d+) STEPS (\d+) MISMATCHES (\d+) WFBFAIL (\d+)", dlog)
     mism = int(m.group(3)) if m else -1
     wfbfail = int(m.group(4)) if m else -1
+    # the model side must have seen the whole stream: every case and op line the harness generated, and the END line
+    seen = re.search(r"SEEN (\d+) (\d+)", dlog)
+    endl = re.search(r"STREAM END (\d+) (\d+)", dlog)
+    zun = re.search(r"ZONE-STEPS (\d+) ZONE-UNCOMPARED (\d+)", dlog)
+    want = (summ.get("cases", -1), summ.get("steps", -2))
+    got_seen = (int(seen.group(1)), int(seen.group(2))) if seen else None
+    got_end = (int(endl.group(1)), int(endl.group(2))) if endl else None
+    compared_cases = int(m.group(1)) if m else -1
+    if drc != 0 or got_seen != want or got_end != want or compared_cases != want[0] or (zun and int(zun.group(2)) != 0):
+        ctx.violation("%s-model-compared-too-few" % pid.lower(),
+                      "the model driver did not compare the whole run: harness generated %s cases / %s steps, the driver saw %s, "
+                      "its END line says %s, it compared %s cases, exit code %s, zone steps without comparison: %s; driver output: %s"
+                      % (want[0], want[1], got_seen, got_end, compared_cases, drc, zun.group(2) if zun else "?", dlog[-500:]),
+                      {"driver_output": dlog[-3000:], "mode": mode}, found_input=False)
 
     # property-level failures on the implementation (found input): one violation per signature
     known_sigs = {k["signature"] for k in ctx.known_open}
@@ -136,7 +163,7 @@ def run_mode(ctx, mode):
                       found_input=False)
     # the extracted wfb must fail on exactly the snapshots on which the Go predicate fails (a wf
     # failure ends its case, so the counts agree when both sides see the same failures)
-    go_wf = sum(v["count"] for k, v in summ["propfail"].items() if k.startswith("wf-") or k in ("reattach", "d36"))
+    go_wf = summ.get("wfcases", 0)   # histories in which the Go predicate (vinv) reported a wf-* failure
     if wfbfail > go_wf:
         ctx.violation("%s-wfb-extracted" % pid.lower(), "extracted wfb fails on implementation snapshots but the Go "
                       "predicate does not: " + dlog[:600], {"driver_output": dlog[:3000]}, found_input=False)
@@ -148,6 +175,8 @@ def run_mode(ctx, mode):
         "rule": RULES[mode],
         "distribution": summ["hist"],
         "model_mismatches": mism,
+        "model_compared": {"cases": compared_cases, "op_lines_seen": got_seen[1] if got_seen else None, "end_line": bool(got_end),
+                           "d36_zone_steps_compared_with_all_visiting_orders": int(zun.group(1)) if zun else None},
         "extracted_wfb_failures_on_impl": wfbfail,
         "property_predicate_failures": {k: v["count"] for k, v in summ["propfail"].items()},
         "samples": summ["samples"] or ["(none)"],
@@ -180,7 +209,9 @@ def run_mode(ctx, mode):
         "that have no refusing path (NewMessage sizeByte, type sizes, SetMinSize, enum indexes feeding sizes) are generated "
         "below 2^60 in magnitude except where stated",
         "Go map iteration over SignalEnum.refs is observable only when two signals of one layout reference the "
-        "enum and grow (finding D36): such steps end the history and only acceptance is compared",
+        "enum and grow (finding D36): such a step ends the history; its result and snapshot must equal the outcome of the "
+        "model for SOME visiting order of the referencing signals (the driver enumerates all permutations), otherwise "
+        "it is a correspondence violation",
     ]
     if not ctx.replay:
         okx, nx, sx, xlog = vm_cross_check(ctx, mode)
